@@ -20,6 +20,7 @@ from .builtin.tags.comment_tag import CommentNode
 from .builtin.tags.doc_tag import DocNode
 from .context import FutureContext
 from .context import RenderContext
+from .exceptions import ContextDepthError
 from .exceptions import LiquidError
 from .exceptions import LiquidInterrupt
 from .exceptions import LiquidSyntaxError
@@ -588,6 +589,16 @@ class BoundTemplate:
 
 
 def _unexpected_render_error(err: Exception, token: Token) -> LiquidError:
+    if isinstance(err, RecursionError):
+        # Partial templates nested inside blocks can use up the interpreter's
+        # stack before `context_depth_limit` is reached.
+        depth_error = ContextDepthError(
+            "maximum recursion depth reached, possible recursive include",
+            token=token,
+        )
+        depth_error.__cause__ = err
+        return depth_error
+
     error = LiquidError(
         f"unexpected liquid rendering error: {type(err).__name__}", token=token
     )
